@@ -16,7 +16,7 @@ type c10 struct{ base }
 
 func init() {
 	runner.Register(&c10{base{id: "C10", level: "exploration",
-		rule: "exhaustive boundary set: each type's boundary members (empty string, empty binary, false, NULL, empty list, empty map, single-element sets, every numeral notation: 1, 1.0, 01, 1e0, -0, 9007199254740993, 38 digits, 1E-130, 9.9E125, 0.1 …) at top level, inside L, inside M, and inside L-in-M-in-L nests down to depth 5; seeded value trees (depth <=3, thorough <=5) with 1-6 attributes. Each item is written with PutItem and read back with GetItem, Query, Scan and (SDK v2) BatchGetItem through both adapters; additionally all items of a case (20-40) are written into two tables of one client and read back together (Query, Scan per table, one BatchGetItem naming both tables): every returned item must equal the one written under its key; oracle = identity on canonical value trees (sets as sets, numbers by exact decimal value). non-trivial = contains a boundary member or nesting depth >=2; distinct by (adapter, type skeleton). Every third item holds one value at three places (a second attribute, twice inside a list / map) and, through SDK v1, as ONE *AttributeValue object shared by all places.",
+		rule: "exhaustive boundary set: each type's boundary members (empty string, empty binary, false, NULL, empty list, empty map, single-element sets, every numeral notation: 1, 1.0, 01, 1e0, -0, 9007199254740993, 38 digits, 1E-130, 9.9E125, 0.1 …) at top level, inside L, inside M, and inside L-in-M-in-L nests down to depth 5; seeded value trees (depth <=3, thorough <=5) with 1-6 attributes. Each item is written with PutItem and read back with GetItem, Query, Scan and (SDK v2) BatchGetItem through both adapters; additionally all items of a case (20-40) are written into two tables of one client and read back together (Query, Scan per table, one BatchGetItem naming both tables): every returned item must equal the one written under its key; oracle = identity on canonical value trees (sets as sets, numbers by exact decimal value). non-trivial = contains a boundary member or nesting depth >=2; distinct by (adapter, type skeleton). Every third item holds one value at three places (a second attribute, twice inside a list / map) and, through SDK v1, as ONE *AttributeValue object shared by all places. A third of the tables has a live index and was used and cleared (ClearTable) before: the item comes back whole through the index too.",
 		assumptions: []string{"identity oracle: no model logic involved", commonAssumptions[1]}}})
 }
 
